@@ -33,11 +33,18 @@ type csvRow struct {
 	F32  float32
 	F64  float64 `header:"f 64"`
 	When time.Time
-	Day  time.Time `format:"2006-01-02"`
-	Dmy  time.Time `format:"02/01/2006"`
-	Ydm  time.Time `format:"2006-02-01" header:"ydm"`
-	Tail string    `header:"tail,col"`
+	Day  time.Time     `format:"2006-01-02"`
+	Dmy  time.Time     `format:"02/01/2006"`
+	Ydm  time.Time     `format:"2006-02-01" header:"ydm"`
+	Dur  time.Duration // integer kinds whose types have a String method: the cell is the number
+	Wd   time.Weekday
+	Side sideT
+	Tail string `header:"tail,col"`
 }
+
+type sideT int8
+
+func (s sideT) String() string { return []string{"sell", "hold", "buy"}[(int(s)%3+3)%3] }
 
 type jsonRow struct {
 	S string    `json:"s"`
@@ -85,6 +92,9 @@ func genCsvRow(rng *rand.Rand) *csvRow {
 		Day:  time.Date(2000+rng.Intn(60), time.Month(1+rng.Intn(12)), 1+rng.Intn(28), 0, 0, 0, 0, time.UTC),
 		Dmy:  time.Date(1990+rng.Intn(60), time.Month(1+rng.Intn(12)), 1+rng.Intn(28), 0, 0, 0, 0, time.UTC),
 		Ydm:  time.Date(1990+rng.Intn(60), time.Month(1+rng.Intn(12)), 1+rng.Intn(28), 0, 0, 0, 0, time.UTC),
+		Dur:  time.Duration(rng.Int63n(1e12)) - 5e11,
+		Wd:   time.Weekday(rng.Intn(7)),
+		Side: sideT(rng.Intn(3) - 1),
 		Tail: strPool[rng.Intn(len(strPool))],
 	}
 	if rng.Intn(4) == 0 {
